@@ -333,9 +333,10 @@ def main(run):
         meta.append(("symmetrize-epsilon", info0, lambda line, e=eps_s: _cmp(U.parse_rats(line, (1, 3, 3))[0] if line != "bad-op" else None, e)))
         b2, e2 = symmetrize_borns_and_epsilon(born_s, eps_s, prim)
         if not U.close(b2, born_s, 1e-12, max(1.0, float(np.abs(born0).max()))) or not U.close(e2, eps_s, 1e-12, max(1.0, float(np.abs(eps0).max()))):
-            run.violation("symmetrize_borns_and_epsilon", "not-idempotent", "second symmetrisation changes the tensors by %.3g / %.3g" % (U.maxdiff(b2, born_s), U.maxdiff(e2, eps_s)), info0)
+            # not in the statement of C08 (it quantifies over symmetrised tensors): a claim of the model (born_symmetrize_projection)
+            run.broke("correspondence", "symmetrize_borns_and_epsilon is not idempotent on the implementation (%.3g / %.3g), the model says it is" % (U.maxdiff(b2, born_s), U.maxdiff(e2, eps_s)), info0)
         if np.abs(born_s.sum(axis=0)).max() > 1e-12 * max(1.0, float(np.abs(born0).max())) * npa:
-            run.violation("symmetrize_borns_and_epsilon", "sum-rule", "sum of symmetrised Born charges is %.3g" % np.abs(born_s.sum(axis=0)).max(), info0)
+            run.broke("correspondence", "sum of symmetrised Born charges is %.3g (the model imposes the sum rule)" % np.abs(born_s.sum(axis=0)).max(), info0)
         run.count("symmetrisation projection oracle", section="oracle")
 
         # Gonze-Lee: the model is compared on a reduced reciprocal sum (about 40 G points; exact rational
@@ -371,9 +372,14 @@ def main(run):
                     run.count("requests with Z_ab != Z_ba (%s)" % method)
                 # Hermiticity of every returned matrix
                 if np.abs(impl - impl.conj().T).max() > 1e-9 * max(sc, 1.0):
-                    run.violation("Phonopy.run_qpoints", "not-hermitian-%s" % method,
-                                  "dynamical matrix with NAC is not Hermitian (max |D - D^H| = %.3g) at %s" % (float(np.abs(impl - impl.conj().T).max()), tag),
-                                  dict(info, q=list(map(float, qv)), direction=None if dr is None else list(map(float, dr))))
+                    msg = "dynamical matrix with NAC is not Hermitian (max |D - D^H| = %.3g) at %s" % (float(np.abs(impl - impl.conj().T).max()), tag)
+                    cse = dict(info, q=list(map(float, qv)), direction=None if dr is None else list(map(float, dr)))
+                    if tag.startswith("generic"):
+                        # at a general q the statement fixes nothing; Hermiticity there is a claim of the model (gl_hermitian)
+                        run.broke("correspondence", msg, {k: v for k, v in cse.items() if k not in ("born", "dielectric")})
+                    else:
+                        # zone centre / commensurate q: the statement equates D with the (Hermitian) uncorrected matrix plus a symmetric term
+                        run.violation("Phonopy.run_qpoints", "not-hermitian-%s" % method, msg, cse)
                 # the API only forwards the direction at the zone centre in the serial build; the kernel ignores it elsewhere
                 dr_eff = dr if np.abs(qv).max() < 1e-5 else None
                 nacl, qc, dcart = _nac_in(rec, qv, dr_eff, E, Z)
@@ -397,17 +403,19 @@ def main(run):
                 z0 = np.array(ddq0)
                 herr0 = float(np.abs(z0 - z0.conj().transpose(0, 2, 1)).max())
                 if herr0 > 1e-9 * max(1.0, float(np.abs(z0).max())):
-                    run.violation("DynamicalMatrixGL._dd_q0", "dd_q0-block-not-hermitian",
-                                  "a 3x3 block of dd_q0 is not Hermitian (max deviation %.3g, scale %.3g)" % (herr0, float(np.abs(z0).max())), info)
-                run.count("dd_q0 block symmetry oracle", section="oracle")
+                    # private attribute: a claim of the model (dd_q0_hermitian_real), the end effect is the Hermiticity check above
+                    run.broke("correspondence", "a 3x3 block of the implementation's dd_q0 is not Hermitian (max deviation %.3g, scale %.3g)" % (herr0, float(np.abs(z0).max())),
+                              {k: v for k, v in info.items() if k not in ("born", "dielectric")})
+                run.count("dd_q0 Hermitian/real compared with the model claim", section="correspondence")
                 if np.abs(z0.imag).max() > 1e-9 * max(1.0, float(np.abs(z0).max())):
-                    run.violation("DynamicalMatrixGL._dd_q0", "dd_q0-not-real", "dd_q0 has an imaginary part %.3g" % float(np.abs(z0.imag).max()), info)
+                    run.broke("correspondence", "the implementation's dd_q0 has an imaginary part %.3g (model: real for a symmetric G list)" % float(np.abs(z0.imag).max()),
+                              {k: v for k, v in info.items() if k not in ("born", "dielectric")})
                 # certificate: the list is symmetric under G -> -G (hypothesis of gl_time_reversal / dd_q0_hermitian_real)
                 key = {tuple(g): k for k, g in enumerate(np.asarray(Gl).tolist())}
-                nu = [key.get(tuple((-np.asarray(g)).tolist() if True else g), -1) for g in np.asarray(Gl)]
                 nu = [key.get(tuple((-g + 0.0).tolist()), -1) for g in np.asarray(Gl)]
                 if min(nu) < 0:
-                    run.violation("DynamicalMatrixGL._get_G_list", "g-list-not-symmetric", "G_list is not symmetric under G -> -G", info)
+                    run.broke("correspondence", "the implementation's G_list is not symmetric under G -> -G (hypothesis of gl_time_reversal)",
+                              {k: v for k, v in info.items() if k not in ("born", "dielectric")})
                 elif len(Gl) <= 400:
                     lines.append("glistwf %d %s %s" % (len(Gl), U.flat(Gl), U.ints(nu)))
                     meta.append(("g-list-certificate", info, lambda line: None if line == "true" else "gListWf = %s on the implementation's G_list" % line))
@@ -419,13 +427,15 @@ def main(run):
                 # time reversal on the implementation: D(-q) = conj D(q) exactly (same list, -K for K)
                 dq = _run_dm(ph, -q_gen)
                 if "generic" in results and not U.close(dq, results["generic"].conj(), 1e-12, sc_dd):
-                    run.violation("Phonopy.run_qpoints", "time-reversal-gonze", "D(-q) differs from conj D(q) by %.3g" % U.maxdiff(dq, results["generic"].conj()), dict(info, q=q_gen.tolist()))
-                run.count("time-reversal oracle (gonze)", section="oracle")
+                    run.broke("correspondence", "gonze: D(-q) differs from conj D(q) by %.3g at a general q (model: gl_time_reversal)" % U.maxdiff(dq, results["generic"].conj()),
+                              dict({k: v for k, v in info.items() if k not in ("born", "dielectric")}, q=q_gen.tolist()))
+                run.count("time-reversal at a general q compared (gonze)", section="correspondence")
             if method == "wang":
                 dq = _run_dm(ph, -q_gen)
                 if "generic" in results and not U.close(dq, results["generic"].conj(), 1e-12, sc):
-                    run.violation("Phonopy.run_qpoints", "time-reversal-wang", "D(-q) differs from conj D(q) by %.3g" % U.maxdiff(dq, results["generic"].conj()), dict(info, q=q_gen.tolist()))
-                run.count("time-reversal oracle (wang)", section="oracle")
+                    run.broke("correspondence", "wang: D(-q) differs from conj D(q) by %.3g at a general q (model: dynmat_time_reversal + even charge sum)" % U.maxdiff(dq, results["generic"].conj()),
+                              dict({k: v for k, v in info.items() if k not in ("born", "dielectric")}, q=q_gen.tolist()))
+                run.count("time-reversal at a general q compared (wang)", section="correspondence")
             if method == "gonze" and corr:
                 lines.append("ddq0 %d %s %s %s %s" % (npa, q(TOLSQ), U.flat(E), U.flat(Z), _g_in(Gl, np.zeros(3), E, Lam, prim.positions)))
                 meta.append(("gonze-dd_q0", info, lambda line, z=np.array(ddq0): _cmp(U.parse_complex(line, z.shape), z)))
@@ -482,7 +492,8 @@ def main(run):
                                   "correction changes D at a commensurate q outside the first zone by %.3g (scale %.3g)" % (rel * sc_dd, sc_dd),
                                   dict(info, q=q_comm.tolist()))
             if "generic" in results and "generic+dir" in results and not U.close(results["generic"], results["generic+dir"], 1e-12, sc):
-                run.violation("Phonopy.run_qpoints(nac_q_direction)", "direction-used-away-from-gamma-%s" % method, "direction changes D at a non-zero q", info)
+                run.broke("correspondence", "%s: nac_q_direction changes D at a non-zero q (model nacVector ignores it there)" % method,
+                          {k: v for k, v in info.items() if k not in ("born", "dielectric")})
             if "generic" in results and U.close(results["generic"], plain["gen"], 1e-12, sc):
                 run.count("generic q: correction numerically absent")
             # zero Born charges: identical matrices everywhere
@@ -509,8 +520,6 @@ def main(run):
         err = chk(line)
         if err is not None:
             run.broke("correspondence", "%s: %s" % (kind, err), {k: v for k, v in info.items() if k not in ("born", "dielectric")})
-            if kind in ("group-certificate", "lattice-certificate"):
-                run.violation("Symmetry.symmetry_operations", "tables-not-wellformed", err, info)
     run.cov["correspondence"]["compared"] = ncmp
 
 
@@ -538,10 +547,22 @@ def _batched_oracle(run, rng, ph, prim, rec, cp, q_c, q_gen, n1, plain, sc, sc_d
     tol_sc = max(sc, sc_dd)
     run.count("batched solver oracle (%s): %d q-points in one call, OMP_NUM_THREADS=%s" % (method, 100 * (nrep // 100), os.environ.get("OMP_NUM_THREADS", "?")), section="oracle")
     case = dict(info, n_qpoints=nrep, distinct_qpoints=[d.tolist() for d in distinct], direction=n1.tolist(), order_head=order[:20])
-    if not U.close(batch, ref, 1e-12, tol_sc):
-        bad = int(np.argmax(np.abs(batch - ref).reshape(nrep, -1).max(axis=1)))
-        run.violation("run_dynamical_matrix_solver_c", "batched-ne-single-%s" % method,
-                      "one call with %d q-points differs from the one-q-at-a-time result by %.3g (entry %d, q=%s)" % (nrep, U.maxdiff(batch, ref), bad, qs[bad].tolist()), case)
+    fixed_by_statement = np.array([pos in (0, 1) for pos in order])  # zone centre with direction, commensurate q
+
+    def batched_vs_single(site, arr):
+        devs = np.abs(arr - ref).reshape(nrep, -1).max(axis=1)
+        if devs.max() <= 1e-12 * tol_sc:
+            return
+        bad = int(np.argmax(np.where(fixed_by_statement, devs, -1.0))) if (devs[fixed_by_statement] > 1e-12 * tol_sc).any() else int(np.argmax(devs))
+        msg = "one call with %d q-points differs from the one-q-at-a-time result by %.3g (entry %d, q=%s)" % (nrep, float(devs[bad]), bad, qs[bad].tolist())
+        if fixed_by_statement[bad]:
+            # the statement gives the value at this q (closed form / uncorrected matrix): one of the two results violates it
+            run.violation(site, "batched-ne-single-%s" % method, msg, case)
+        else:
+            # only general q-points differ: agreement of access paths is C14's property; here it is the tie to the modelled routine
+            run.broke("correspondence", "%s (%s): %s" % (site, method, msg), {k: v for k, v in case.items() if k not in ("born", "dielectric")})
+
+    batched_vs_single("run_dynamical_matrix_solver_c", batch)
     # closed form at the zone-centre entries, no-op at the commensurate entries
     pred = None
     for k, pos in enumerate(order):
@@ -561,9 +582,7 @@ def _batched_oracle(run, rng, ph, prim, rec, cp, q_c, q_gen, n1, plain, sc, sc_d
     # the public batch path: Phonopy.run_qpoints with all points at once
     ph.run_qpoints(qs, nac_q_direction=n1, with_dynamical_matrices=True)
     api = np.array(ph.get_qpoints_dict()["dynamical_matrices"])
-    if not U.close(api, ref, 1e-12, tol_sc):
-        run.violation("Phonopy.run_qpoints", "batched-ne-single-%s" % method,
-                      "run_qpoints with %d q-points differs from the one-q-at-a-time result by %.3g" % (nrep, U.maxdiff(api, ref)), case)
+    batched_vs_single("Phonopy.run_qpoints", api)
 
 
 def _cmp_glist(line, Gl, rec, r_impl, run):
@@ -742,8 +761,9 @@ def _sequence_stream(run, rng, thorough):
                 run.count("nac_params/masses sequence steps (%s)" % method, section="oracle")
                 dev = max(U.maxdiff(g, f) for g, f in zip(got, fresh))
                 problems = []
+                fresh_note = ""
                 if dev > 1e-12 * scale:
-                    problems.append("differs from a freshly built object in the same state by %.3g" % dev)
+                    fresh_note = " (differs from a freshly built object in the same state by %.3g)" % dev
                 f_now = float(dm.nac_factor)
                 pred = _closed_form(prim, np.array(dm.born), np.array(dm.dielectric_constant), f_now, n)
                 scd = max(scale, float(np.abs(pred).max()))
@@ -755,7 +775,10 @@ def _sequence_stream(run, rng, thorough):
                     problems.append("zero Born charges change D at a general q by %.3g" % U.maxdiff(got[1], pl[1]))
                 if problems:
                     run.violation("DynamicalMatrixNAC.nac_params setter" if P is not None or tag in ("zero-born",) else "Primitive.masses setter",
-                                  "stale-after-reassign-%s" % method, "after step '%s': " % tag + "; ".join(problems), info)
+                                  "stale-after-reassign-%s" % method, "after step '%s': " % tag + "; ".join(problems) + fresh_note, info)
+                elif fresh_note:
+                    # the limits of the statement hold; only a general q differs from a fresh object: C15's property, here a model tie
+                    run.broke("correspondence", "%s after step '%s'%s at a general q only" % (method, tag, fresh_note), {k: v for k, v in info.items() if k not in ("born", "dielectric")})
             prim.masses = masses0
     common.switch_variant("omp")
 
